@@ -2235,3 +2235,7 @@ impl From<Group34Var3> for f64 {
         x.value as f64
     }
 }
+
+#[cfg(kani)]
+#[path = "/verif/harness/outstation_session.rs"]
+mod verif_harness;
